@@ -326,10 +326,9 @@ func (w *World) sign(who, form, alg string, msg []byte) (string, bool) {
 }
 
 type sthDev struct {
-	tree                     string
-	rootLen                  int
-	sigForm, alg, who, over  string
-	omitRoot, omitSig, extra bool
+	tree                    string
+	rootLen                 int
+	sigForm, alg, who, over string
 }
 
 func (w *World) sthJSON(d sthDev) (*Body, string) {
@@ -362,9 +361,7 @@ func (w *World) sthJSON(d sthDev) (*Body, string) {
 	sig, has := w.sign(d.who, d.sigForm, d.alg, msg)
 	var f []string
 	f = append(f, fmt.Sprintf(`"tree_size":%d`, size), fmt.Sprintf(`"timestamp":%d`, w.TS))
-	if !d.omitRoot {
-		f = append(f, fmt.Sprintf(`"sha256_root_hash":"%s"`, b64(sent)))
-	}
+	f = append(f, fmt.Sprintf(`"sha256_root_hash":"%s"`, b64(sent)))
 	if has {
 		f = append(f, fmt.Sprintf(`"tree_head_signature":"%s"`, sig))
 	}
@@ -372,11 +369,11 @@ func (w *World) sthJSON(d sthDev) (*Body, string) {
 }
 
 type sctDev struct {
-	ext                         string
-	idLen                       int
-	id, version                 string
-	sigForm, alg, who, over     string
-	omitID, omitSig, omitFields bool
+	ext                     string
+	idLen                   int
+	id, version             string
+	sigForm, alg, who, over string
+	omitFields              bool
 }
 
 func (w *World) sctJSON(ch *Chain, d sctDev) (*Body, string) {
@@ -425,9 +422,7 @@ func (w *World) sctJSON(ch *Chain, d sctDev) (*Body, string) {
 		return &Body{TS: w.TS}, "null"
 	}
 	f := []string{fmt.Sprintf(`"sct_version":%d`, ver)}
-	if d.idLen > 0 || !d.omitID {
-		f = append(f, fmt.Sprintf(`"id":"%s"`, b64(id)))
-	}
+	f = append(f, fmt.Sprintf(`"id":"%s"`, b64(id)))
 	f = append(f, fmt.Sprintf(`"timestamp":%d`, w.TS), fmt.Sprintf(`"extensions":"%s"`, b64(ext)))
 	if has {
 		f = append(f, fmt.Sprintf(`"signature":"%s"`, sig))
@@ -480,7 +475,7 @@ func sthDevOf(class string) (sthDev, bool) {
 func sctDevOf(class string) (sctDev, bool) {
 	d := sctDev{ext: "empty", idLen: 32, id: "keyhash", version: "v1", sigForm: "ok", alg: "ok", who: "log", over: "same"}
 	switch class {
-	case "valid", "trailingJunk", "truncatedJSON":
+	case "valid", "trailingJunk", "truncatedJSON", "extBadBase64":
 	case "validWithExtensions":
 		d.ext = "some"
 	case "idLen0":
@@ -588,10 +583,11 @@ func (w *World) render(method, chain, class string, rng *mrand.Rand) *Body {
 		}
 		body, valid = w.sctJSON(w.Chains[chain], d)
 		wrong = pick(strings.Replace(valid, `"timestamp":`, `"timestamp":"x","y":`, 1), strings.Replace(valid, `"id":"`, `"id":5,"z":"`, 1), "["+valid+"]",
-			strings.Replace(valid, `"sct_version":0`, `"sct_version":"v1"`, 1), strings.Replace(valid, `"extensions":"`, `"extensions":7,"q":"`, 1),
-			strings.Replace(valid, `"sct_version":0`, `"sct_version":256`, 1))
-		badB64 = pick(strings.Replace(valid, `"id":"`, `"id":"!!`, 1), strings.Replace(valid, `"signature":"`, `"signature":"*`, 1),
-			strings.Replace(valid, `"extensions":"`, `"extensions":"*`, 1))
+			strings.Replace(valid, `"sct_version":0`, `"sct_version":"v1"`, 1), strings.Replace(valid, `"extensions":"`, `"extensions":7,"q":"`, 1))
+		badB64 = pick(strings.Replace(valid, `"id":"`, `"id":"!!`, 1), strings.Replace(valid, `"signature":"`, `"signature":"*`, 1))
+		if class == "extBadBase64" { // a JSON string all right, decoded by the client itself
+			valid = strings.Replace(valid, `"extensions":"`, `"extensions":"*`, 1)
+		}
 	case "GetSTHConsistency":
 		body = &Body{}
 		valid = `{"consistency":` + b64list(w.Nodes[:2]) + `}`
